@@ -125,6 +125,9 @@ type Replay struct {
 	Kind     string          `json:"kind"`
 	Case     json.RawMessage `json:"case"`
 	Message  string          `json:"message,omitempty"`
+	// Pkg names the test package that replays this file when it is not the
+	// property's own package (jobs of shared engines, e.g. "e2").
+	Pkg string `json:"pkg,omitempty"`
 }
 
 // Fail records a failing case: it is written to $VERIF_OUT/fail-<kind>.json,
@@ -142,7 +145,7 @@ func Fail(property, kind string, c any, msg string) {
 	if len(msg) > 4000 {
 		msg = msg[:4000] + "…"
 	}
-	b, _ := json.MarshalIndent(Replay{Property: property, Kind: kind, Case: raw, Message: msg}, "", " ")
+	b, _ := json.MarshalIndent(Replay{Property: property, Kind: kind, Case: raw, Message: msg, Pkg: os.Getenv("VERIF_JOB_PKG")}, "", " ")
 	mu.Lock()
 	defer mu.Unlock()
 	name := filepath.Join(dir, "fail-"+kind+"-"+strconv.Itoa(os.Getpid())+".json")
